@@ -313,6 +313,22 @@ def run(ctx):
                coq_ps, HEADER, "chk_poly_sign", judge=judge_ps, configs=("pure",), nontrivial=lambda c: c["kind"] not in ("pos", "neg"))
     correspond(ctx, "Triangle_is_valid", nets, [("Triangle.is_valid", a, val_out)],
                coq_valid, HEADER, "chk_is_valid", judge=judge_valid, nontrivial=nt)
+    # malformed stream: every other degree (0, 4..7) raises UnsupportedDegree, every other dimension (1, 3) NotImplementedError
+    from framework import sweep
+    bad = []
+    for d in (0, 4, 5, 6, 7):
+        num = (d + 1) * (d + 2) // 2
+        bad.append({"rows": [[F(rng.randint(0, 4)) for _ in range(num)] for _ in range(2)], "want": "UnsupportedDegree", "d": d, "dim": 2})
+    for dim in (1, 3):
+        for d in (0, 1, 2, 3, 4):
+            num = (d + 1) * (d + 2) // 2
+            bad.append({"rows": [[F(rng.randint(0, 4)) for _ in range(num)] for _ in range(dim)], "want": "NotImplementedError", "d": d, "dim": dim})
+
+    def judge_bad(c, op, cfg, raw):
+        if raw.get("exc") == c["want"]:
+            return None
+        return "degree %d in R^%d: expected %s, got %s" % (c["d"], c["dim"], c["want"], raw.get("exc") or "the answer %r" % (raw.get("ok"),))
+    sweep(ctx, "is_valid_refuses_other_degrees_and_dimensions", bad, [("Triangle.is_valid", a)], judge_bad)
     return finish(ctx, "theorems: the Jacobian-polynomial tables (regenerated) give the Bernstein net of det J for all real nets; "
                   "Bernstein bounds on the closed triangle (every degree) justify the decision of a decided piece. The subdivision "
                   "loop of polynomial_sign is modelled and tied by exact correspondence of Triangle.is_valid on lattice/perturbation "
